@@ -168,6 +168,44 @@ fn reuse_backend(listener: TcpListener, scn: Scn, until: Instant) {
     }
 }
 
+/// `abort_then_next`: a request for /big gets the head of a 100000-byte response and 30000 bytes of it,
+/// then the backend keeps the connection; any other request is answered 200 "second" — after the rest
+/// of an unfinished response if this connection still owes one (what a server does)
+fn abort_backend(listener: TcpListener) {
+    for s in listener.incoming() {
+        let Ok(mut s) = s else { continue };
+        std::thread::spawn(move || {
+            let _ = s.set_read_timeout(Some(Duration::from_secs(12)));
+            let mut owed = 0usize;
+            loop {
+                let mut acc: Vec<u8> = vec![];
+                let mut buf = [0u8; 4096];
+                let head = loop {
+                    if let Some(p) = acc.windows(4).position(|w| w == b"\r\n\r\n") {
+                        break Some(String::from_utf8_lossy(&acc[..p]).to_string());
+                    }
+                    match s.read(&mut buf) {
+                        Ok(0) | Err(_) => break None,
+                        Ok(n) => acc.extend_from_slice(&buf[..n]),
+                    }
+                };
+                let Some(head) = head else { return };
+                if owed > 0 {
+                    let _ = s.write_all(&vec![b'T'; owed]);
+                    owed = 0;
+                }
+                if head.starts_with("GET /big") {
+                    let _ = s.write_all(b"HTTP/1.1 200 OK\r\nContent-Length: 100000\r\n\r\n");
+                    let _ = s.write_all(&vec![b'1'; 30000]);
+                    owed = 70000;
+                } else if s.write_all(b"HTTP/1.1 200 OK\r\nContent-Length: 6\r\n\r\nsecond").is_err() {
+                    return;
+                }
+            }
+        });
+    }
+}
+
 /// scripted backend: serves connections until `until`
 fn backend(listener: TcpListener, scn: Scn, until: Instant) {
     listener.set_nonblocking(true).unwrap();
@@ -317,6 +355,7 @@ struct Resp {
     extra: usize,
     ms: u128,
     b0: u8,
+    emb: bool,
 }
 
 /// reads one response with a deadline; `acc` carries bytes over between requests
@@ -406,7 +445,11 @@ fn read_response(s: &mut TcpStream, acc: &mut Vec<u8>, settle: bool) -> Resp {
                 eprintln!("DUMP {:?}", String::from_utf8_lossy(acc));
             }
             let b0 = acc.windows(4).position(|w| w == b"\r\n\r\n").and_then(|p| acc.get(p + 4).copied()).unwrap_or(0);
-            let r = Resp { status, complete, eof, hang: hang && !complete && !eof, body, extra, ms: t0.elapsed().as_millis(), b0 };
+            // a status line inside what the client takes for the body: answer bytes appended to a started response
+            let emb = acc.windows(4).position(|w| w == b"\r\n\r\n").map_or(false, |p| {
+                acc[p + 4..].windows(12).any(|w| &w[..9] == b"HTTP/1.1 " && w[9..12].iter().all(|c| c.is_ascii_digit()))
+            }) && status / 100 != 1;
+            let r = Resp { status, complete, eof, hang: hang && !complete && !eof, body, extra, ms: t0.elapsed().as_millis(), b0, emb };
             if complete {
                 acc.drain(..used);
             }
@@ -458,7 +501,29 @@ fn client(front: SocketAddr, scn: Scn) -> Vec<Resp> {
                     }
                 }
             }
-            out.push(Resp { status: 0, complete: false, eof, hang: !eof, body: 0, extra, ms: t0.elapsed().as_millis(), b0: 0 });
+            out.push(Resp { status: 0, complete: false, eof, hang: !eof, body: 0, extra, ms: t0.elapsed().as_millis(), b0: 0, emb: false });
+        }
+        "abort_then_next" => {
+            // client 1 starts a big download and goes away in the middle of it
+            let r = format!("GET /big HTTP/1.1\r\nHost: {host}\r\n\r\n");
+            let _ = s.write_all(r.as_bytes());
+            let mut got = 0usize;
+            let mut buf = [0u8; 8192];
+            s.set_read_timeout(Some(Duration::from_secs(5))).unwrap();
+            while got < 10000 {
+                match s.read(&mut buf) {
+                    Ok(0) | Err(_) => break,
+                    Ok(n) => got += n,
+                }
+            }
+            out.push(Resp { status: 200, complete: false, eof: false, hang: false, body: got, extra: 0, ms: 0, b0: 0, emb: false });
+            drop(s);
+            // the next client (a new connection) asks the same cluster: it must get its own answer
+            let Ok(mut s2) = TcpStream::connect(front) else { return out };
+            let _ = s2.write_all(req.as_bytes());
+            let mut acc2 = vec![];
+            out.push(read_response(&mut s2, &mut acc2, true));
+            return out;
         }
         "sticky_refusing" => {
             let r = format!("GET /x HTTP/1.1\r\nHost: {host}\r\nCookie: SOZUBALANCEID=sa\r\n\r\n");
@@ -600,7 +665,9 @@ fn main() {
             drop(l); // nothing listens there any more
         } else {
             let sc = scn.clone();
-            if scn.kind.starts_with("reuse_") {
+            if scn.kind == "abort_then_next" {
+                backends.push(std::thread::spawn(move || abort_backend(l)));
+            } else if scn.kind.starts_with("reuse_") {
                 backends.push(std::thread::spawn(move || reuse_backend(l, sc, until)));
             } else {
                 backends.push(std::thread::spawn(move || backend(l, sc, until)));
@@ -626,8 +693,8 @@ fn main() {
                 for (i, r) in rs.iter().enumerate() {
                     writeln!(
                         o,
-                        "res {id} {i} status={} complete={} eof={} hang={} body={} extra={} ms={} b0={}",
-                        r.status, r.complete as u8, r.eof as u8, r.hang as u8, r.body, r.extra, r.ms, r.b0
+                        "res {id} {i} status={} complete={} eof={} hang={} body={} extra={} ms={} b0={} emb={}",
+                        r.status, r.complete as u8, r.eof as u8, r.hang as u8, r.body, r.extra, r.ms, r.b0, r.emb as u8
                     )
                     .unwrap();
                 }
